@@ -419,6 +419,8 @@ func (c *Ctx) firstTreeSelf(name, clause string, ft *FuncInfo, fcall *ast.CallEx
 		if r, ok := n.(*ast.ReturnStmt); ok {
 			if len(r.Results) == 0 {
 				bare = true
+			} else if isNilIdent(info, r.Results[0]) {
+				// "no tree": the path taken when there is no source element
 			} else if o := identObj(info, r.Results[0]); o != nil {
 				returned[o] = true
 			}
@@ -914,9 +916,23 @@ func (c *Ctx) phyloxmlTables() {
 				// enclosing Sprintf call
 				st := stackTo(fi.Decl.Body, lit)
 				for i := len(st) - 1; i >= 0; i-- {
-					if cl, ok := st[i].(*ast.CallExpr); ok && isFunc(calleeOf(info, cl), "fmt", "", "Sprintf") {
+					if cl, ok := st[i].(*ast.CallExpr); ok {
+						fn := calleeOf(info, cl)
+						if !isFunc(fn, "fmt", "", "Sprintf") && !isFunc(fn, "fmt", "", "Fprintf") && !isFunc(fn, "fmt", "", "Printf") {
+							continue
+						}
+						// the values formatted: the arguments after the format string (the literal)
+						fmtIdx := -1
+						for k, a := range cl.Args {
+							if nodeContains(a, lit.Pos()) {
+								fmtIdx = k
+							}
+						}
+						if fmtIdx < 0 {
+							continue
+						}
 						w.call = cl
-						for _, a := range cl.Args[1:] {
+						for _, a := range cl.Args[fmtIdx+1:] {
 							if f := c.attrRead(info, a, 3); f != "" {
 								w.attr = f
 							}
